@@ -206,12 +206,12 @@ class Layer:
 
     def _threads(self):
         v = self.world.records.get("proc_threads") or [BASE["proc_threads"] + i for i in range(6)]
-        return [tuple(v[0:3]), tuple(v[3:6])]
+        return [tuple(v[0:3])]
 
     def _open_files(self):
         v = self.world.records.get("proc_open_files") or [BASE["proc_open_files"] + i for i in range(2)]
         if self.plat == "windows":
-            return ["\\Device\\HarddiskVolume1\\f%d" % v[0], "\\Device\\HarddiskVolume1\\g%d" % v[1]]
+            return ["\\Device\\HarddiskVolume1\\f%d" % v[0]]
         return [("/f%d" % v[0], v[1])]
 
     def _cext_funcs(self):
@@ -264,7 +264,7 @@ class Layer:
             f["net_connections"] = lambda *a: []
         elif p == "windows":
             f["pid_exists"] = lambda pid: L.world.listed()
-            f["ppid_map"] = lambda: ({L.world.pid: BASE["ppid_map"]} if L.world.listed() else {})
+            f["ppid_map"] = lambda: ({L.world.pid: L.scal("ppid_map")} if L.world.listed() else {})
             f["proc_exe"] = lambda *a: "C:\\bin\\exe.exe"
             f["proc_cmdline"] = lambda *a, **k: ["a", "b"]
             f["proc_memory_uss"] = lambda *a: L.scal("proc_memory_uss")
